@@ -119,6 +119,12 @@ func (c *Compiler) Compile(node parser.Node) error {
 		if err := c.emit(OpMap, len(node.Pairs)); err != nil {
 			return err
 		}
+	case *parser.EmptyStmt:
+		// blank lines and comments compile to nothing
+	default:
+		// Never leave a construct out silently: what the compiler cannot
+		// translate yet is an error at compile time.
+		return fmt.Errorf("%w: %T is not supported by the compiler yet", ErrUnsupportedExpression, node)
 	}
 	return nil
 }
